@@ -532,3 +532,13 @@ def run(ck, prog):
     _run_pre_clamp(ck, prog)
     from sa import clamp
     clamp.run_rule(ck, prog, set(DIMENSION_FILES))
+
+
+# ------------------------------------------------------------------ generic: an index variable of one range addresses one buffer with one stride
+_run_pre_stride = run
+
+
+def run(ck, prog):
+    _run_pre_stride(ck, prog)
+    from sa import stride
+    stride.run_rule(ck, prog, set(DIMENSION_FILES))
